@@ -85,3 +85,70 @@ def view_units():
 
 
 UNITS = [check_not_none_unit(), check_no_nones_unit()] + number_cell_units() + [wbs_root_unit()] + view_units()
+
+
+# ------------------------------------------------------------------------------------------------ _to_list
+LOT = LIST(OTK)          # a list whose elements are tasks or None
+ARGd = Datatype('SetterArg'); ARGd.declare('none'); ARGd.declare('one', ('task', T.z)); ARGd.declare('many', ('items', LOT.z)); ARGd.declare('other'); ARGd = ARGd.create()
+ARG = S('SetterArg', ARGd)
+
+
+def to_list_unit():
+    """_to_list(val): None -> [], a Task -> [task], a list / tuple / set / iterable -> its elements that are not None, in order; anything else is refused"""
+    def build():
+        j = Int('j'); k = Int('k')
+
+        class ArgPlugin(LinkPlugin):
+            def __init__(self_): LinkPlugin.__init__(self_, 'pre')
+
+            def cmp(self_, eng, st, kind, l_, r, line):
+                if l_.s == ARG and r.s == NONE and kind in ('Is', 'IsNot'): return ARGd.is_none(l_.e) if kind == 'Is' else Not(ARGd.is_none(l_.e))
+                if l_.s.name == 'TypeOf' and r.s.name == 'TypeName' and kind in ('Is', 'IsNot'):
+                    tst = {'Task': ARGd.is_one(l_.e), 'list': ARGd.is_many(l_.e), 'tuple': BoolVal(False), 'set': BoolVal(False)}[r.e]          # tuples / sets / other iterables are folded into `many` (they are iterated the same way)
+                    return tst if kind == 'Is' else Not(tst)
+                if l_.s == OTK and r.s == NONE and kind in ('Is', 'IsNot'): return OTK.dt.is_none(l_.e) if kind == 'Is' else OTK.dt.is_some(l_.e)
+                return LinkPlugin.cmp(self_, eng, st, kind, l_, r, line)
+
+            def ev_Name(self_, eng, e, st):
+                if e.id in ('Task', 'list', 'tuple', 'set', 'Iterable') and e.id not in st.env: return [(st, V(e.id, S('TypeName', None)))]
+                return NotImplemented
+
+            def call(self_, eng, e, st):
+                f = e.func
+                if isinstance(f, ast.Name) and f.id == 'type' and len(e.args) == 1:
+                    s, v = eng.ev1(e.args[0], st); return [(s, V(v.e, S('TypeOf', None)))]
+                if isinstance(f, ast.Name) and f.id == 'isinstance':
+                    s, v = eng.ev1(e.args[0], st); return [(s, V(ARGd.is_many(v.e), BOOL))]
+                return LinkPlugin.call(self_, eng, e, st)
+
+            def ev_List(self_, eng, e, st):
+                if not e.elts: return [(st, V(empty, LT))]
+                s, v = eng.ev1(e.elts[0], st)
+                Lv = fresh('one', LT); s.assume(And(ln(Lv) == 1, at(Lv, 0) == ARGd.task(v.e), nodup(Lv), ForAll([x], mem(Lv, x) == (x == ARGd.task(v.e)), patterns=[mem(Lv, x)])))
+                return [(s, V(Lv, LT))]
+
+            def ev_ListComp(self_, eng, e, st):
+                if ast.unparse(e).replace(' ', '') != '[tfortinvaliftisnotNone]': raise Unsupported('comprehension form')
+                src = ARGd.items(st.env['val'].e); R = fresh('kept', LT); pos = Function(f'pos!{fresh_id()}', IntSort(), IntSort())
+                # assumed semantics of a comprehension with a condition (T1): the elements that satisfy it, in order
+                st.assume(And(ln(R) >= 0,
+                              ForAll([j], Implies(And(0 <= j, j < ln(R)), And(0 <= pos(j), pos(j) < LOT.len(src), LOT.at(src, pos(j)) == OTK.dt.some(at(R, j)))), patterns=[at(R, j)]),
+                              ForAll([j, k], Implies(And(0 <= j, j < k, k < ln(R)), pos(j) < pos(k)), patterns=[MultiPattern(pos(j), pos(k))]),
+                              ForAll([k], Implies(And(0 <= k, k < LOT.len(src), OTK.dt.is_some(LOT.at(src, k))), Exists([j], And(0 <= j, j < ln(R), pos(j) == k))), patterns=[LOT.at(src, k)])))
+                st.ghost['kept'] = (R, src)
+                return [(st, V(R, LT))]
+        fc = {'sig': {'val': ARG}, 'requires': [('a-task-argument-is-a-task', lambda c: Implies(ARGd.is_one(c['val']), ARGd.task(c['val']) != null)),
+                                                ('list-elements-are-tasks-or-None', lambda c: Implies(ARGd.is_many(c['val']), LOT.len(ARGd.items(c['val'])) >= 0))],
+              'raises': {'RuntimeError': [('C15/refused-only-for-a-value-that-is-neither-None-nor-a-task-nor-iterable', lambda c: ARGd.is_other(c['val']))]},
+              'ensures': [('C16/None-gives-the-empty-list', lambda c: Implies(ARGd.is_none(c['val']), ln(c.result.e) == 0)),
+                          ('C16/a-task-gives-the-one-element-list', lambda c: Implies(ARGd.is_one(c['val']), And(ln(c.result.e) == 1, at(c.result.e, 0) == ARGd.task(c['val'])))),
+                          ('C16/a-list-gives-its-elements-that-are-not-None', lambda c: Implies(ARGd.is_many(c['val']), And(
+                              ForAll([j], Implies(And(0 <= j, j < ln(c.result.e)), Exists([k], And(0 <= k, k < LOT.len(ARGd.items(c['val'])), LOT.at(ARGd.items(c['val']), k) == OTK.dt.some(at(c.result.e, j)))))),
+                              ForAll([k], Implies(And(0 <= k, k < LOT.len(ARGd.items(c['val'])), OTK.dt.is_some(LOT.at(ARGd.items(c['val']), k))),
+                                                  Exists([j], And(0 <= j, j < ln(c.result.e), OTK.dt.some(at(c.result.e, j)) == LOT.at(ARGd.items(c['val']), k)))))))),
+                          ('C15/accepted-only-for-None-a-task-or-an-iterable', lambda c: Not(ARGd.is_other(c['val'])))]}
+        return Engine(F, '_to_list', {}, TASK_CLASSES, fc, plugins=[ArgPlugin()]), LIST_AX
+    return Unit('_to_list', F, build, ['C01', 'C15', 'C16'])
+
+
+UNITS.append(to_list_unit())
